@@ -6,6 +6,6 @@ GROUP = {
     # established by explicit kani::cover! in every harness and by the mutant twins.
     "kani_args": ["-Z", "stubbing", "--no-assertion-reach-checks"],
     # modules of the harness crate whose items the generated playback tests need in scope
-    "modules": ["util", "s_send", "s_watch", "s_metrics", "s_block", "k_kernels", "r_exec"],
+    "modules": ["util", "s_send", "s_sow", "s_watch", "s_metrics", "s_block", "k_kernels", "r_exec"],
     "cbmc_args": [],
 }
